@@ -47,6 +47,24 @@ fn main() {
                 let _ = out.flush();
             }
         }
+        "atomic" => {
+            // vharness atomic <gentle|atomic|compile> <input path> <output path> <data file>
+            let how = &args[2];
+            let data = std::fs::read_to_string(&args[5]).unwrap_or_default();
+            let r = match how.as_str() {
+                "gentle" => chialisp::util::gentle_overwrite(&args[3], &args[4], &data),
+                "atomic" => chialisp::util::atomic_write_file(&args[3], &args[4], &data),
+                _ => {
+                    // file-to-file compilation through the library entry point
+                    let mut syms = std::collections::HashMap::new();
+                    chialisp::classic::clvm_tools::clvmc::compile_clvm(&args[3], &args[4], &[], &mut syms).map(|_| ())
+                }
+            };
+            match r {
+                Ok(()) => println!("OK"),
+                Err(e) => println!("ERR {}", e.replace('\n', " ")),
+            }
+        }
         _ => {
             eprintln!("unknown mode {}", mode);
             std::process::exit(2);
